@@ -10,7 +10,7 @@ import auxval
 import gtirb_from_repo
 from auxval import OracleError, canon, oracle_encode, to_sx, type_str
 from codec_cases import expected_after_roundtrip, features, gen_cases, impl_decode, impl_encode
-from common import model_batch, model_result, zs
+from common import exc_name, model_batch, model_result, zs
 
 LEVEL = "proof"
 TRUSTED = (
@@ -18,6 +18,41 @@ TRUSTED = (
     "C++ and Lisp implementations, which cannot be built here",
     "harness/auxval.py oracle_encode is a second independent statement of the format",
 )
+
+
+def instance_isolation(ctx, g):
+    """`codecs` is a per-instance table ("Codecs can be added or overridden using this dictionary"): customising a private
+    Serialization() must not change the bytes AuxData.serializer -- or any other instance -- writes for the built-in type names."""
+    import io
+    S = g.serialization.Serialization
+
+    def enc(ser, v, tn):
+        buf = io.BytesIO()
+        try:
+            ser.encode(buf, v, tn)
+            return ("ok", buf.getvalue().hex())
+        except Exception as e:  # noqa: BLE001
+            return ("err", exc_name(g, e))
+    probes = [(1 << 40, "Addr"), ([1, 2], "sequence<Addr>"), ("é", "string"), ({"k": 1 << 33}, "mapping<string,uint64_t>"), (7, "zz_private")]
+    before = [enc(g.AuxData.serializer, v, tn) for v, tn in probes]
+    mine = S()
+    saved = dict(mine.codecs)
+    try:
+        mine.codecs["Addr"] = mine.codecs["uint8_t"]
+        mine.codecs["uint64_t"] = mine.codecs["uint16_t"]
+        mine.codecs["zz_private"] = mine.codecs["uint8_t"]
+        after = [enc(g.AuxData.serializer, v, tn) for v, tn in probes]
+        fresh = [enc(S(), v, tn) for v, tn in probes]
+        ctx.case("instance-isolation", True)
+        ctx.count("instance_isolation_probes", len(probes))
+        for (v, tn), b, a, f in zip(probes, before, after, fresh):
+            if a != b or f != b:
+                ctx.add("oracle", "codec-table-shared", "after a PRIVATE Serialization() instance was customised, type %s is written as %s by AuxData.serializer and %s by a "
+                        "fresh instance (before: %s)" % (tn, a, f, b), {"type_name": tn, "before": b, "after": a, "fresh": f})
+    finally:
+        # undo, in case the table IS shared, so that nothing leaks into other streams
+        mine.codecs.clear()
+        mine.codecs.update(saved)
 
 
 def run(ctx):
@@ -101,6 +136,7 @@ def run(ctx):
         except ImportError:
             ctx.count("java_leg_unavailable")
     ctx.cov["traces_validated_against_impl"] = len(meta) + len(nc_bytes)
+    instance_isolation(ctx, g)
     import codec_cases as _cc
     for _k, _v in _cc.FORMS.items():
         ctx.count("encode_value_form:" + _k, _v)
